@@ -93,7 +93,8 @@ def pack_attrs(a, do_spacing=False):
             if val is not None:
                 new_attrs[attr] = yaml.dump(val)
     new_attrs[attr_coords] = yaml.dump(new_attrs[attr_coords],
-                                       default_flow_style=True)
+                                       default_flow_style=True,
+                                       sort_keys=False)
     return new_attrs
 
 
